@@ -41,6 +41,7 @@ type World struct {
 	NAllFn   int
 	NEdges   int
 	anchors  *Anchors
+	roles    *Roles
 	locks    *LockFacts
 	effCache map[*ssa.Function]*FuncEffects
 }
